@@ -304,10 +304,84 @@ fn dispatch(db: &mut Option<Db>, line: &str) -> String {
     }
 }
 
+/// Watchdog mode: run the cases in a child worker; a case that does not answer
+/// within the time limit is reported as `TIMEOUT` and the worker is replaced.
+fn watchdog(secs: u64) {
+    use std::process::{Child, Command, Stdio};
+    use std::sync::mpsc;
+    use std::time::Duration;
+
+    fn spawn() -> (Child, mpsc::Receiver<String>) {
+        let exe = std::env::current_exe().unwrap();
+        let mut child = Command::new(exe)
+            .arg("--worker")
+            .stdin(Stdio::piped())
+            .stdout(Stdio::piped())
+            .stderr(Stdio::null())
+            .spawn()
+            .expect("spawn worker");
+        let out = child.stdout.take().unwrap();
+        let (tx, rx) = mpsc::channel();
+        std::thread::spawn(move || {
+            let r = io::BufReader::new(out);
+            for line in r.lines() {
+                match line {
+                    Ok(l) => {
+                        if tx.send(l).is_err() {
+                            break;
+                        }
+                    }
+                    Err(_) => break,
+                }
+            }
+        });
+        (child, rx)
+    }
+
+    let stdin = io::stdin();
+    let stdout = io::stdout();
+    let mut out = io::BufWriter::new(stdout.lock());
+    let (mut child, mut rx) = spawn();
+    for line in stdin.lock().lines() {
+        let line = line.unwrap();
+        let line = line.trim_end();
+        if line.is_empty() {
+            continue;
+        }
+        let sent = {
+            let cin = child.stdin.as_mut().unwrap();
+            writeln!(cin, "{}", line).and_then(|_| cin.flush()).is_ok()
+        };
+        let res = if sent {
+            rx.recv_timeout(Duration::from_secs(secs)).ok()
+        } else {
+            None
+        };
+        match res {
+            Some(l) => writeln!(out, "{}", l).unwrap(),
+            None => {
+                let _ = child.kill();
+                let _ = child.wait();
+                let dead = !sent;
+                writeln!(out, "{}", if dead { "ABORT" } else { "TIMEOUT" }).unwrap();
+                let (c, r) = spawn();
+                child = c;
+                rx = r;
+            }
+        }
+    }
+    drop(child.stdin.take());
+    let _ = child.wait();
+    out.flush().unwrap();
+}
+
 fn main() {
     let args: Vec<String> = std::env::args().collect();
     if args.len() > 1 {
         match args[1].as_str() {
+            "--watchdog" => {
+                return watchdog(args.get(2).and_then(|s| s.parse().ok()).unwrap_or(5));
+            }
             "dump-facts" => return dbx::dump_facts(),
             "dbopen" => return dbx::dbopen(&args[2..]),
             "topk" => return dbx::topk(&args[2..]),
@@ -328,7 +402,10 @@ fn main() {
         }
         let res = catch_unwind(AssertUnwindSafe(|| dispatch(&mut db, line)));
         match res {
-            Ok(s) => writeln!(out, "{}", s).unwrap(),
+            Ok(s) => {
+                writeln!(out, "{}", s).unwrap();
+                out.flush().unwrap();
+            }
             Err(e) => {
                 let msg = if let Some(s) = e.downcast_ref::<&str>() {
                     s.to_string()
@@ -338,7 +415,8 @@ fn main() {
                     "?".to_string()
                 };
                 let msg: String = msg.chars().take(80).collect();
-                writeln!(out, "PANIC {}", msg.replace('\n', " ")).unwrap()
+                writeln!(out, "PANIC {}", msg.replace('\n', " ")).unwrap();
+                out.flush().unwrap();
             }
         }
     }
